@@ -96,7 +96,7 @@ def analyse(files, decls, scratch, build):
 
 def check(ctx, build=None):
     if build is None:
-        build = C.ensure_built("C04", ["translator"], need_harness=False, extra_go=EXTRA_GO)
+        build = C.ensure_built("C04", ["printer"], need_harness=False, extra_go=EXTRA_GO)
     scratch = C.scratch()
     found = False
     stats = collections.Counter()
@@ -149,6 +149,20 @@ def check(ctx, build=None):
                          "the same definitions for every layout", {"differing": diff[:5]})
                 if len(samples) < 1 and li == 1:
                     samples.append({"seed": seed, "files": sorted(fs), "go_order": [d.name for d in decls][:12], "emitted_order": res["order"][:12]})
+        # ---- an obligation or the correspondence broke and nothing concrete was found yet: search further
+        if build.broken and not found:
+            for seed in range(ctx.seed * 7000 + 1000, ctx.seed * 7000 + 1000 + 120):
+                files, decls = c04gen.package(seed, ndecls=10 + seed % 10)
+                for li, fs in enumerate([files, c04gen.relayout(decls, seed * 3 + 1), c04gen.relayout(decls, seed * 3 + 2), c04gen.relayout(decls, seed * 3 + 3)]):
+                    res = analyse(fs, decls, scratch, build)
+                    stats["search_layouts"] += 1
+                    for kind, detail in (res["problems"] if res["accepted"] else []):
+                        viol("C04 (search after a broken obligation): " + kind, {"proto": "c04", "seed": seed, "layout": li, "files": fs},
+                             "one definition per declaration, each after everything it mentions", {"problem": detail, "emitted_order": res["order"]})
+                    if found:
+                        break
+                if found:
+                    break
     finally:
         shutil.rmtree(scratch, ignore_errors=True)
     C.report_broken_obligations(ctx, build, found)
